@@ -26,7 +26,7 @@ RULE = ("headers built from the DECam TPV template of the suite reduced to WCS c
         "TPV (orders 1-3, PV?_0..2 always present, no radial term), TAN-SIP (order 2-4, AP/BP_ORDER present, "
         "with/without AP/BP cards); coefficient of total order k = eps R^(1-k), |eps| <= 0.02, R = field "
         "radius. Pixels: corners, CRPIX, uniform in the image; scalars and arrays. Histories: 2-8 calls of "
-        "image2sky / sky2image(find, distort) / get_jacobian on one object. Non-trivial: a header with "
+        "image2sky / sky2image(find, distort, xtol) / get_jacobian on one object. Non-trivial: a header with "
         "distortion, or CRVAL within 1 deg of a pole or of RA=0, or CRPIX outside the image; a history with "
         ">= 1 inverse call before a forward call. Distinct = distinct case JSON.")
 ASSUMPTIONS = [
@@ -408,8 +408,9 @@ def check_invpoly(case, ctx):
         r, kappa, rpix = independent_inverse_residual(h, pts)
         # "fitted-polynomial accuracy": approximation error of a polynomial of the documented order (r, from
         # the independent fit) plus the float64 error any backward-stable solution of the documented
-        # least-squares problem carries, eps * cond * |solution| (see DESIGN.md section 10)
-        cond_term = 100.0 * EPS64 * kappa * rpix
+        # least-squares problem carries (see DESIGN.md section 10)
+        # the documented solution forms the normal equations (A^T A), whose error bound is eps * cond(A)^2
+        cond_term = 16.0 * EPS64 * kappa * kappa * rpix
         tol = 5.0 * r + TOL_PIX + cond_term
         ctx.count("poly:conditioning-term>1e-6px" if cond_term > TOL_PIX else "poly:conditioning-term<=1e-6px")
         if cond_term > 1e-2:
@@ -520,6 +521,8 @@ def history_cases(draw):
               "scalar": draw(st.booleans()), "distort": draw(st.sampled_from([True, True, False]))}
         if name == "sky2image":
             op["find"] = draw(st.booleans())
+            # the documented root-finding tolerance of one call must not leak into later calls
+            op["xtol"] = draw(st.sampled_from([None, None, None, 1e-2, 1e-4, 1e-12])) if op["find"] else None
         ops.append(op)
     return {"header": h, "ops": ops}
 
@@ -532,6 +535,8 @@ def _apply(w, h, op):
     if op["op"] == "sky2image":
         _, _, a, b = ref_sky64(h, pts, True)
         kw["find"] = op["find"]
+        if op.get("xtol") is not None:
+            kw["xtol"] = op["xtol"]
         fn = w.sky2image
     else:
         a, b = x, y
@@ -566,6 +571,8 @@ def classify_history(case):
         if op["op"] == "sky2image":
             seen_inv = True
             labs.append("inv:find=%s,distort=%s" % (op["find"], op["distort"]))
+            if op.get("xtol") is not None:
+                labs.append("inv:explicit-xtol")
         elif seen_inv:
             inv_then_fwd = True
     if inv_then_fwd:
